@@ -200,7 +200,65 @@ def rule_c(ctx: Ctx) -> None:
                  f"resolves to the outer definition, so stars expand to the wrong columns")
 
 
-RULES = [rule_a, rule_b, rule_c]
+def rule_d(ctx: Ctx) -> None:
+    ctx.rule("C10.d", "case folding honours ASCII_ONLY_NORMALIZATION in both directions: in Dialect.normalize_identifier every str.upper()/str.lower() of the identifier text "
+                      "is the alternative of an ASCII-table translate() under a test of self.ASCII_ONLY_NORMALIZATION")
+    f = ctx.repo.func("sqlglot.dialects.dialect", "Dialect.normalize_identifier")
+    m = f.module
+    folds = [c for c in walk_no_nested(f.node) if isinstance(c, ast.Call) and isinstance(c.func, ast.Attribute) and c.func.attr in ("upper", "lower", "casefold") and not c.args]
+    ctx.require(bool(folds), "anchor vanished: normalize_identifier no longer folds case with str.upper()/lower()")
+    for c in folds:
+        inst = f"{f.key}|{norm(c, 50)}"
+        ok = False
+        cur: ast.AST = c
+        p = m.parent(cur)
+        while p is not None and p is not f.node:
+            test = None
+            if isinstance(p, ast.IfExp) and cur is p.orelse:
+                test, other = p.test, p.body
+            elif isinstance(p, ast.If) and any(cur is x for x in p.orelse):
+                test, other = p.test, p.body
+            if test is not None and "ASCII_ONLY_NORMALIZATION" in norm(test) and not (isinstance(test, ast.UnaryOp) and isinstance(test.op, ast.Not)):
+                others = other if isinstance(other, list) else [other]
+                if any(isinstance(x, ast.Call) and isinstance(x.func, ast.Attribute) and x.func.attr == "translate" for o in others for x in ast.walk(o)):
+                    ok = True
+            if isinstance(p, (ast.IfExp, ast.If)) and isinstance(getattr(p, "test", None), ast.UnaryOp) and "ASCII_ONLY_NORMALIZATION" in norm(p.test) and (cur is getattr(p, "body", None) or (isinstance(p, ast.If) and any(cur is x for x in p.body))):
+                ok = True  # `x.upper() if not self.ASCII_ONLY_NORMALIZATION else x.translate(..)`
+            cur, p = p, m.parent(p)
+        if ok:
+            ctx.ok(inst, {"fold": norm(c, 50), "ascii_alternative": True})
+        else:
+            ctx.fail(m, c, f.key, c, f"`{norm(c, 50)}` folds the whole Unicode range regardless of ASCII_ONLY_NORMALIZATION: in an ASCII-only dialect non-ASCII characters, "
+                                     f"which are case-sensitive there, are altered (and distinct columns are conflated)")
+
+
+def rule_e(ctx: Ctx) -> None:
+    ctx.rule("C10.e", "no identity of strings: in the qualification modules id(x) is never taken of a value whose static type is str — equal strings may or may not be one "
+                      "object (CPython interns one-character and identifier-like strings), so an id()-keyed table keyed by names conflates or separates entries by accident")
+    from ..typed import types
+
+    T = types(ctx.repo)
+    mods = ["sqlglot.optimizer.qualify", "sqlglot.optimizer.qualify_columns", "sqlglot.optimizer.qualify_tables", "sqlglot.optimizer.resolver",
+            "sqlglot.optimizer.normalize_identifiers", "sqlglot.optimizer.scope", "sqlglot.optimizer.isolate_table_selects", "sqlglot.schema"]
+    n = 0
+    for mn in mods:
+        m = ctx.repo.module(mn)
+        for c in m.of_type(ast.Call):
+            if call_name(c) == "id" and len(c.args) == 1:
+                n += 1
+                ty = (T.of(m, c.args[0]) or "").replace("builtins.", "")
+                f = m.enclosing_func(c)
+                where = f.key if f else mn
+                inst = f"{where}|{norm(c)}|{c.lineno - (f.node.lineno if f else 0)}"
+                if ty in ("str", "str | None") or ty.startswith("Literal['"):
+                    ctx.fail(m, c, where, c, f"`{norm(c)}` takes the identity of a string ({ty}): whether two equal names are the same object depends on interning, "
+                                              f"so per-occurrence bookkeeping keyed by it leaks between occurrences (e.g. `a.* EXCEPT (x), a.*` for a one-character table name)")
+                else:
+                    ctx.ok(inst, {"id_of": norm(c.args[0], 40), "type": ty[:40] or "untyped"})
+    ctx.count("id_calls", n)
+
+
+RULES = [rule_a, rule_b, rule_c, rule_d, rule_e]
 EXPLANATION = (
     "Typestate of a straight-line pipeline: the order of the six stage calls, the single threaded variable, own-flag "
     "guards, defaults and dialect/schema threading in qualify() are read from its AST; the error family of every "
